@@ -1253,6 +1253,12 @@ func (u *Unit) next(fr *Frame, st *State, in *ssa.Next) Val {
 
 func (u *Unit) recv(fr *Frame, st *State, in *ssa.UnOp) Val {
 	ct := in.X.Type().Underlying().(*types.Chan)
+	if u.checks["nilchan"] {
+		// opt-in (flag checks=+nilchan): a receive from a nil channel blocks forever
+		if ch, isT := u.val(fr, st, in.X).(*Term); isT && ch.Sort == SRef {
+			u.addObl(st, "block/nilchan", "receive from a channel that is not nil (a nil channel blocks forever): "+u.srcOf(in), in.Pos(), Not(Eq(ch, NilRef)))
+		}
+	}
 	v := u.freshVal(st, ct.Elem(), "recv")
 	u.note("channel receive: value unconstrained (buffering/blocking/closing not modelled)")
 	if in.CommaOk {
